@@ -187,7 +187,7 @@ func generateOutput(nodeSet [][]*Node, query parser.Query) [][]interface{} {
 		for _, outputFormat := range query.SelectOutput {
 			switch outputFormat.Type {
 			case "string":
-				outputFormat.SelectEntity = strings.ReplaceAll(outputFormat.SelectEntity, "\"", "")
+				outputFormat.SelectEntity = strings.TrimSuffix(strings.TrimPrefix(outputFormat.SelectEntity, "\""), "\"")
 				result = append(result, outputFormat.SelectEntity)
 			case "method_chain", "variable":
 				if outputFormat.Type == "variable" {
